@@ -22,7 +22,7 @@ REPO = os.environ.get("VERIF_REPO", "/repo")
 COQ = os.path.join(VERIF, "coq")
 OCAML = os.path.join(VERIF, "ocaml")
 MODEL_BIN = os.path.join(OCAML, "tdfmodel")
-EVIDENCE = os.path.join(VERIF, "evidence")
+EVIDENCE = os.environ.get("VERIF_EVIDENCE") or os.path.join(VERIF, "evidence")
 KNOWN = os.path.join(VERIF, "known_findings.txt")
 CAPTURE = os.path.join(REPO, "tests", "test_files", "2838~aa~Walking 01.tdf")
 
